@@ -213,6 +213,7 @@ spif_socket_show(spif_socket_t self, spif_charptr_t name, spif_str_t buff, size_
 spif_cmp_t
 spif_socket_comp(spif_socket_t self, spif_socket_t other)
 {
+    SPIF_OBJ_COMP_CHECK_NULL(self, other);
     return SPIF_CMP_FROM_INT(self->fd - other->fd);
 }
 
